@@ -153,7 +153,7 @@ func main() {
 			for _, m := range st.Missed {
 				fmt.Printf("SELFTEST-MISS property=%s mutant=%s (the rule did not fire on a variant it should detect; checker weakness, not a violation of the tree)\n", id, m)
 			}
-			fmt.Printf("selftest %s: %d variants applied, %d detected, %d stale, %d not statically detectable (documented)\n", id, st.Applied, st.Detected, len(st.Stale), len(st.Undetectable))
+			fmt.Printf("selftest %s: %d variants applied, %d breaking detected, %d/%d behaviour-preserving silent, %d stale, %d not statically detectable (documented)\n", id, st.Applied, st.Detected, st.NegativeSilent, st.Negative, len(st.Stale), len(st.Undetectable))
 		}
 		o := r.finish(kf)
 		wall := time.Since(t1).Seconds() + loadSecs
